@@ -5,8 +5,10 @@ package main
 import (
 	"bytes"
 	"encoding/binary"
+	"encoding/hex"
 	"fmt"
 	"math"
+	"os"
 	"sort"
 	"strings"
 
@@ -410,6 +412,12 @@ func edgeGrid() []seqSpec {
 		reqCSV("db1", "c", "\"unterminated\n1,2", "csv-garbage"), reqCSV("db1", "c", "", "csv-empty"),
 		reqParquet("db1", "p", []byte("PAR1 not a parquet file PAR1"), "parquet-garbage"),
 		reqSpec{Ep: "csv", NoFile: true, Query: map[string]string{"db": "db1", "measurement": "c"}, Tag: "csv-no-file"})
+	// minimised past finds (corpus): a mutated Parquet file on which arrow-go's reader dereferences nil
+	if b, err := os.ReadFile("/verif/corpus/C04/parquet-reader-panic.hex"); err == nil {
+		if raw, err := hex.DecodeString(strings.TrimSpace(string(b))); err == nil {
+			one("corpus-parquet-reader-panic", reqParquet("db2", "m", raw, "corpus-parquet"))
+		}
+	}
 	return out
 }
 
